@@ -1348,7 +1348,20 @@ def possibly_unbound(view):
     if fn.args.kwarg:
         params.add(fn.args.kwarg.arg)
     glob = {n_ for x in ast.walk(fn) if isinstance(x, (ast.Global, ast.Nonlocal)) for n_ in x.names}
-    locs = {x.id for x in ast.walk(fn) if isinstance(x, ast.Name) and isinstance(x.ctx, ast.Store)} - params - glob
+    comp_targets = {t.id for x in ast.walk(fn) if isinstance(x, ast.comprehension) for t in ast.walk(x.target) if isinstance(t, ast.Name)}
+    plain_stores = set()
+    for x in ast.walk(fn):
+        if isinstance(x, (ast.ListComp, ast.SetComp, ast.DictComp, ast.GeneratorExp)):
+            continue
+    def _stores_outside_comprehensions(node, acc):
+        for c in ast.iter_child_nodes(node):
+            if isinstance(c, (ast.ListComp, ast.SetComp, ast.DictComp, ast.GeneratorExp, ast.Lambda, ast.FunctionDef, ast.ClassDef)):
+                continue
+            if isinstance(c, ast.Name) and isinstance(c.ctx, ast.Store):
+                acc.add(c.id)
+            _stores_outside_comprehensions(c, acc)
+        return acc
+    locs = _stores_outside_comprehensions(fn, set()) - params - glob       # comprehension variables live in their own scope
     locs |= {h.name for h in ast.walk(fn) if isinstance(h, ast.ExceptHandler) and h.name}
     out = []
     for name in sorted(locs):
